@@ -819,3 +819,6 @@ mod tests {
         assert_eq!((15, vec![10, 20]), (default, region_values));
     }
 }
+
+#[cfg(fontc_verif)]
+pub use kern::verif_hooks as kern_verif_hooks;
